@@ -13,7 +13,8 @@ socket socketpair pipe bind listen accept connect getsockname getsockopt setsock
 epoll_create epoll_ctl epoll_wait shm_open shm_unlink fork kill waitpid execvp setsid abort
 time nanosleep alarm srand geteuid getuid getpid gethostname sched_getaffinity sched_setaffinity
 _ZNSt6chrono3_V212system_clock3nowEv _ZNSt6chrono3_V212steady_clock3nowEv _ZNSt13random_device9_M_getvalEv
-_Z9ipcCreateiPKcPKS0_S0_RN2Ip7AddressEPiS6_PPv""".split()
+_Z9ipcCreateiPKcPKS0_S0_RN2Ip7AddressEPiS6_PPv
+_ZN3Ipc8StoreMap16closeForUpdatingERNS_14StoreMapUpdateE""".split()
 
 VARIANTS = {
     'asan': ['-O1', '-g1', '-fsanitize=address', '-fno-omit-frame-pointer'],
